@@ -37,12 +37,15 @@ def load_transfer(env, **cfg):
     mesh = env.var("def_mesh", lt.shape["def_mesh"])
     F = env.var("sec_forces", lt.shape["sec_forces"])
     q = env.var("q", (3,))
-    loads = lt.compute(dict(def_mesh=mesh, sec_forces=F))["loads"]
     nodes = cn.compute(dict(mesh=mesh))["nodes"]          # the structural nodes of the same (deformed) mesh
-    env.eq("C11", "total force conserved: sum loads[:, :3] == sum sec_forces", loads[:, :3].sum(axis=0), F.reshape(-1, 3).sum(axis=0))
     a = quarter_chord_midspan(xp, mesh)
-    env.eq("C11", "total moment about any point q conserved (nodal moments + node x nodal force)",
-           total_moment(xp, nodes, loads[:, :3], q, loads[:, 3:]), total_moment(xp, a, F, q))
+    from .c16 import runs
+    # on a fresh component and on a live one last run with other forces or another mesh (wind-off after wind-on included)
+    for lab, o in runs(env, "lt", lt.factory, dict(def_mesh=mesh, sec_forces=F)):
+        loads = o["loads"]
+        env.eq("C11", "total force conserved: sum loads[:, :3] == sum sec_forces" + lab, loads[:, :3].sum(axis=0), F.reshape(-1, 3).sum(axis=0))
+        env.eq("C11", "total moment about any point q conserved (nodal moments + node x nodal force)" + lab,
+               total_moment(xp, nodes, loads[:, :3], q, loads[:, 3:]), total_moment(xp, a, F, q))
 
 
 @job("c11.MeshPointForces", ("C11",),
